@@ -1,12 +1,7 @@
 SPECIFICATION RSpec
 CONSTANTS
-  Focus = "generic"
-  Families = {"leaf","topd","seqd","generic","typedecl","func","type"}
-  Budget = 2
-  LayoutMoves = 0
-  LayoutKinds = {}
-  Wrap = "decls"
-  CheckInjective = FALSE
+  Foci = {"rtdecl3", "rtvalues3", "rtgeneric2"}
+  InjFoci = {}
   TogoCopiesTypeParams = @@TP@@
   TogoHandlesIndexList = @@IL@@
   NilForNoNames = @@NN@@
